@@ -49,6 +49,18 @@ mod verif_kani_wb {
 
     fn stub_eprint(_args: std::fmt::Arguments<'_>) {}
 
+    // std's unstable sort, replaced by the obviously correct sort of at most two elements
+    // (CBMC otherwise unrolls ipnsort/heapsort for a slice whose length it cannot bound syntactically)
+    fn stub_sort2<T, F>(v: &mut [T], is_less: &mut F)
+    where
+        F: FnMut(&T, &T) -> bool,
+    {
+        assert!(v.len() <= 2, "sort stub: at most two elements");
+        if v.len() == 2 && is_less(&v[1], &v[0]) {
+            v.swap(0, 1);
+        }
+    }
+
     // hand-back step as one ghost event (its own contract: release_scrubbed_single / _contract)
     fn stub_release_scrubbed(_fs: &mut FreeSpaceManager, allocations: &[PreparedWrite], _stats: &Statistics) -> Result<()> {
         unsafe {
@@ -135,6 +147,7 @@ mod verif_kani_wb {
     // a failed hand-back keeps the reservation; quarantined reservations are never released.
     #[kani::proof]
     #[kani::unwind(4)]
+    #[kani::stub(core::slice::sort::unstable::sort, stub_sort2)]
     #[kani::stub(FreeSpaceManager::release_sectors, stub_release_sectors)]
     #[kani::stub(std::io::_eprint, stub_eprint)]
     #[kani::stub(parking_lot::RawRwLock::lock_shared_slow, pl_lock_shared_slow)]
@@ -198,8 +211,8 @@ mod verif_kani_wb {
 
     // single-allocation instance of the same contract (quick tier)
     #[kani::proof]
-    #[kani::unwind(2)]
-    #[kani::solver(kissat)]
+    #[kani::unwind(3)]
+    #[kani::stub(core::slice::sort::unstable::sort, stub_sort2)]
     #[kani::stub(FreeSpaceManager::release_sectors, stub_release_sectors)]
     #[kani::stub(std::io::_eprint, stub_eprint)]
     #[kani::stub(parking_lot::RawRwLock::lock_shared_slow, pl_lock_shared_slow)]
